@@ -47,10 +47,14 @@ type KeySpec struct {
 // Config is the group under test.
 type Config struct {
 	LRU     bool      `json:"lru"`     // false: map facade
-	Cap     int64     `json:"cap"`     // LRU capacity (1, 2, 100)
+	Cap     int64     `json:"cap"`     // LRU capacity (1, 2, 4, 100)
 	Workers int       `json:"workers"` // 1, 2, 3, 7
 	Keys    []KeySpec `json:"keys"`
 	Init    []bool    `json:"init"` // key i is in the store (not in the cache) when the case starts
+	// Sized: the values the store hands out implement cache.Value with a real Size()
+	// (an LRU then accounts for it); otherwise they are plain values that count 1.
+	Sized  bool    `json:"sized,omitempty"`
+	InitSz []int64 `json:"init_sz,omitempty"` // Sized: Size() of the initial value of key i (default 1)
 }
 
 // operation kinds
@@ -69,9 +73,10 @@ var opNames = [...]string{"DoGet", "DoAdd", "DoUpdate", "DoDelete", "DoUpdOrAddI
 
 // Op is one call on the group. Every call has its own cancellable context.
 type Op struct {
-	K   int   `json:"k"`   // operation kind
-	Key int   `json:"key"` // index into Config.Keys
-	D   int64 `json:"d"`   // payload
+	K   int   `json:"k"`            // operation kind
+	Key int   `json:"key"`          // index into Config.Keys
+	D   int64 `json:"d"`            // payload
+	Sz  int64 `json:"sz,omitempty"` // Sized configurations: Size() of the value a successful write of this operation stores
 	// Cancel: when the caller's context ends. 0 never; 1 before the call is made; 2 while
 	// the request is queued behind a gated operation (gated part only; elsewhere like 0);
 	// 3 inside the CancelAt-th (1-based) store callback of this operation: the callback
@@ -219,7 +224,10 @@ func genConfig(t *rapid.T) Config {
 	c := Config{}
 	c.LRU = rapid.Bool().Draw(t, "lru")
 	if c.LRU {
-		c.Cap = rapid.SampledFrom([]int64{1, 2, 100}).Draw(t, "cap")
+		c.Cap = rapid.SampledFrom([]int64{1, 2, 4, 100}).Draw(t, "cap")
+		c.Sized = rapid.Bool().Draw(t, "sized")
+	} else {
+		c.Sized = rapid.IntRange(0, 3).Draw(t, "sized") == 0
 	}
 	c.Workers = rapid.SampledFrom([]int{1, 2, 3, 7}).Draw(t, "workers")
 	n := rapid.IntRange(1, 6).Draw(t, "nkeys")
@@ -244,15 +252,39 @@ func genConfig(t *rapid.T) Config {
 	for i := range c.Init {
 		c.Init[i] = rapid.Bool().Draw(t, "init")
 	}
+	if c.Sized {
+		c.InitSz = make([]int64, n)
+		for i := range c.InitSz {
+			c.InitSz[i] = genSize(t, c)
+		}
+	}
 	return c
+}
+
+// genSize draws the Size() of a value: around 1 and around the capacity, so that
+// values grow and shrink across it.
+func genSize(t *rapid.T, c Config) int64 {
+	cp := c.Cap
+	if !c.LRU {
+		cp = 2
+	}
+	sz := rapid.SampledFrom([]int64{1, 1, 1, 2, cp - 1, cp, cp + 1, 3 * cp}).Draw(t, "sz")
+	if sz < 0 {
+		sz = 0
+	}
+	return sz
 }
 
 // opWeights: the operation mix (index = operation kind)
 var opKindGen = rapid.SampledFrom([]int{opGet, opGet, opGet, opAdd, opAdd, opUpdate, opUpdate, opDelete, opDelete,
 	opUpdOrAdd, opUpdOrAdd, opUpsertLoad, opUpsertLoad, opUpsertRenew, opUpsertRenew})
 
-func genOp(t *rapid.T, nkeys int) Op {
-	return Op{K: opKindGen.Draw(t, "op"), Key: rapid.IntRange(0, nkeys-1).Draw(t, "key"), D: int64(rapid.IntRange(0, 99).Draw(t, "d"))}
+func genOp(t *rapid.T, c Config) Op {
+	op := Op{K: opKindGen.Draw(t, "op"), Key: rapid.IntRange(0, len(c.Keys)-1).Draw(t, "key"), D: int64(rapid.IntRange(0, 99).Draw(t, "d"))}
+	if c.Sized && op.K != opGet && op.K != opDelete {
+		op.Sz = genSize(t, c)
+	}
+	return op
 }
 
 // genCancel draws when the operation's context ends: mostly never.
@@ -293,7 +325,7 @@ func GenSeq(t *rapid.T) Case {
 	// half of the histories have callers whose context ends
 	cancels := rapid.Bool().Draw(t, "cancels")
 	for i := 0; i < n; i++ {
-		op := genOp(t, len(c.Keys))
+		op := genOp(t, c.Config)
 		if cancels {
 			genCancel(t, &op, false)
 		}
@@ -305,8 +337,7 @@ func GenSeq(t *rapid.T) Case {
 
 func GenGate(t *rapid.T) CaseGate {
 	c := CaseGate{Config: genConfig(t)}
-	nk := len(c.Keys)
-	c.Gate = genOp(t, nk)
+	c.Gate = genOp(t, c.Config)
 	gk := c.Gate.Key
 	// most operations go to the gated key: that is where acceptance order matters
 	nearKey := func(op *Op) {
@@ -315,7 +346,7 @@ func GenGate(t *rapid.T) CaseGate {
 		}
 	}
 	for i, n := 0, rapid.IntRange(0, 3).Draw(t, "npre"); i < n; i++ {
-		op := genOp(t, nk)
+		op := genOp(t, c.Config)
 		nearKey(&op)
 		c.Pre = append(c.Pre, op)
 	}
@@ -324,7 +355,7 @@ func GenGate(t *rapid.T) CaseGate {
 		c.Gate.Cancel, c.Gate.CancelAt = cInside, c.GateAt
 	}
 	for i, n := 0, rapid.IntRange(1, 4).Draw(t, "nqueued"); i < n; i++ {
-		op := genOp(t, nk)
+		op := genOp(t, c.Config)
 		nearKey(&op)
 		genCancel(t, &op, true)
 		c.Queued = append(c.Queued, op)
@@ -340,7 +371,7 @@ func GenConc(t *rapid.T) CaseConc {
 		n := rapid.IntRange(3, 10).Draw(t, "nops")
 		var ops []Op
 		for j := 0; j < n; j++ {
-			op := genOp(t, len(c.Keys))
+			op := genOp(t, c.Config)
 			genCancel(t, &op, false)
 			ops = append(ops, op)
 		}
@@ -361,6 +392,24 @@ type Val struct {
 	K   string
 	Ver int64
 	D   int64
+	Sz  int64 // Sized configurations: what Size() reports
+}
+
+// SVal is a Val that implements cache.Value: what the store hands to the group
+// in Sized configurations.
+type SVal struct{ Val }
+
+func (s SVal) Size() int { return int(s.Sz) }
+
+// asVal unwraps what the group returned or handed to a callback.
+func asVal(x interface{}) (Val, bool) {
+	switch v := x.(type) {
+	case Val:
+		return v, true
+	case SVal:
+		return v.Val, true
+	}
+	return Val{}, false
 }
 
 // opData is the `data` argument handed to add / update / upsert operations.
@@ -448,6 +497,7 @@ type env struct {
 	faults      [nCallbacks]map[int]int
 	inflight    map[string]int
 	yields      int
+	sized       bool // values implement cache.Value
 	seq         bool // sequential mode: exactly one operation is in progress at any time
 	cur         int  // sequential mode: id of the operation in progress (-1: none)
 	noFaults    bool // final sweep: the fault plan is switched off
@@ -502,10 +552,16 @@ func (e *env) cancelRec(rec *opRec) {
 }
 
 // install makes v the store's value of kid (mu held).
-func (e *env) install(kid string, d int64, by *opRec) Val {
+func (e *env) install(kid string, d, sz int64, by *opRec) Val {
 	e.retire(kid, by)
 	e.ver++
 	v := Val{K: kid, Ver: e.ver, D: d}
+	if e.sized {
+		v.Sz = sz
+		if v.Sz < 0 {
+			v.Sz = 0
+		}
+	}
 	e.vals[kid] = v
 	e.hist[kid] = append(e.hist[kid], &histEnt{v: v, inst: e.tick})
 	return v
@@ -548,7 +604,7 @@ func (e *env) invoke(rec *opRec, cb int, argOK bool, hasPre bool, pre interface{
 	if hasPre {
 		ent.preNil = pre == nil
 		ent.pre = pre
-		if pv, ok := pre.(Val); ok && exists && pv == cur {
+		if pv, ok := asVal(pre); ok && exists && pv == cur {
 			ent.preOK = true
 		}
 	}
@@ -590,16 +646,16 @@ func (e *env) invoke(rec *opRec, cb int, argOK bool, hasPre bool, pre interface{
 		if exists {
 			ent.err = &cbErr{Op: rec.id, Cb: cb, What: "the store already has this key"}
 		} else {
-			ent.ok, ent.out = true, e.install(kid, rec.op.D, rec)
+			ent.ok, ent.out = true, e.install(kid, rec.op.D, rec.op.Sz, rec)
 		}
 	case cb == cbUpd:
 		if exists {
-			ent.ok, ent.out = true, e.install(kid, rec.op.D, rec)
+			ent.ok, ent.out = true, e.install(kid, rec.op.D, rec.op.Sz, rec)
 		} else {
 			ent.err = &cbErr{Op: rec.id, Cb: cb, NotFound: true, What: "not found"}
 		}
 	case cb == cbUpsert:
-		ent.ok, ent.out = true, e.install(kid, rec.op.D, rec)
+		ent.ok, ent.out = true, e.install(kid, rec.op.D, rec.op.Sz, rec)
 	case cb == cbDel:
 		if exists {
 			e.retire(kid, rec)
@@ -626,6 +682,9 @@ func (e *env) invoke(rec *opRec, cb int, argOK bool, hasPre bool, pre interface{
 	if ent.ok {
 		if cb == cbDel {
 			return nil, nil
+		}
+		if e.sized {
+			return SVal{ent.out}, nil
 		}
 		return ent.out, nil
 	}
@@ -676,6 +735,7 @@ func validOp(op Op, nkeys int) bool {
 // goroutines must have been created before.
 func newHarness(c Config, faults []Fault) *harness {
 	h := &harness{cfg: c, env: newEnv(faults)}
+	h.env.sized = c.Sized
 	for _, k := range c.Keys {
 		key, _ := k.build()
 		h.keys = append(h.keys, key)
@@ -684,7 +744,11 @@ func newHarness(c Config, faults []Fault) *harness {
 	}
 	for i, kid := range h.kids {
 		if i < len(c.Init) && c.Init[i] {
-			h.env.install(kid, -1, nil)
+			sz := int64(1)
+			if i < len(c.InitSz) {
+				sz = c.InitSz[i]
+			}
+			h.env.install(kid, -1, sz, nil)
 		}
 	}
 	if c.LRU {
@@ -834,7 +898,7 @@ func (r *opRec) resultIs(en *cbEnt) bool {
 		if en.cb == cbDel {
 			return r.v == nil && r.err == nil
 		}
-		vv, ok := r.v.(Val)
+		vv, ok := asVal(r.v)
 		return ok && r.err == nil && vv == en.out
 	}
 	ce, ok := r.err.(*cbErr)
@@ -878,7 +942,7 @@ func checkShape(r *opRec) (obs int, site, msg string) {
 	if len(L) == 0 {
 		switch r.op.K {
 		case opGet:
-			if _, isVal := r.v.(Val); isVal && r.err == nil {
+			if _, isVal := asVal(r.v); isVal && r.err == nil {
 				r.complete, r.effOK = true, true
 				return obsCached, "", ""
 			}
@@ -957,7 +1021,7 @@ func checkShape(r *opRec) (obs int, site, msg string) {
 	}
 	if len(L) == 2 && L[1].cb == cbUpd {
 		// the existing item of an update that follows a load is the loaded value
-		if pv, ok := L[1].pre.(Val); L[1].preNil || !ok || pv != L[0].out {
+		if pv, ok := asVal(L[1].pre); L[1].preNil || !ok || pv != L[0].out {
 			return wrongSeq(wantDoc)
 		}
 	}
@@ -1006,11 +1070,13 @@ const (
 //   - a caller whose context ended is no exception: what its operation's
 //     callbacks did counts exactly like for any other caller.
 type model struct {
-	cfg     Config
-	st      []int
-	deleted []bool          // certainly not cached because of a successful delete
-	wt      []bool          // label only: the key would be cached now had nothing been evicted
-	track   map[string]*Val // what the store holds per key, followed through the callback logs in judging order
+	cfg      Config
+	st       []int
+	kids     []string
+	deleted  []bool          // certainly not cached because of a successful delete
+	oversize []bool          // certainly not cached because its value is bigger than the LRU capacity
+	wt       []bool          // label only: the key would be cached now had nothing been evicted
+	track    map[string]*Val // what the store holds per key, followed through the callback logs in judging order
 	// gated phase: the real order of operations on different keys is not the judging order,
 	// so an LRU that may evict makes every certainty about "cached" void after each step
 	voidAfterEach bool
@@ -1018,7 +1084,7 @@ type model struct {
 
 func newModel(h *harness) *model {
 	n := len(h.keys)
-	m := &model{cfg: h.cfg, st: make([]int, n), deleted: make([]bool, n), wt: make([]bool, n), track: map[string]*Val{}}
+	m := &model{cfg: h.cfg, kids: h.kids, st: make([]int, n), deleted: make([]bool, n), oversize: make([]bool, n), wt: make([]bool, n), track: map[string]*Val{}}
 	h.env.mu.Lock()
 	for k, v := range h.env.vals {
 		v := v
@@ -1028,26 +1094,62 @@ func newModel(h *harness) *model {
 	return m
 }
 
-// inserted: the key was (st: may have been) put into the cache by an operation
-// that found it uncached, which in an LRU may have evicted any other key.
-func (m *model) inserted(key, st int) {
-	m.st[key] = st
-	m.deleted[key] = false
+// sizeIfCached: what the key's entry counts in an LRU if the key is cached. A
+// coherent cache holds the store's current value, whose size is known.
+func (m *model) sizeIfCached(key int) int64 {
+	if !m.cfg.Sized {
+		return 1
+	}
+	if v := m.track[m.kids[key]]; v != nil {
+		return v.Sz
+	}
+	return 1
+}
+
+// evictionPossible: with everything that may be cached now, an LRU worker cache
+// may have gone over its capacity (no assumption on which keys share a worker).
+func (m *model) evictionPossible() bool {
 	if !m.cfg.LRU {
+		return false
+	}
+	total := int64(0)
+	for i, s := range m.st {
+		if s != sNo {
+			total += m.sizeIfCached(i)
+		}
+	}
+	return total > m.cfg.Cap
+}
+
+// othersMayBeGone: entries of other keys may have been evicted.
+func (m *model) othersMayBeGone(key int) {
+	for i := range m.st {
+		if i != key && m.st[i] >= sYesWT {
+			m.st[i] = sMaybe
+		}
+	}
+}
+
+// wasSet: the operation set (certain: st = sYesWT) or may have set (st = sMaybe)
+// the store's current value of the key into the cache; grew: the entry is new or
+// bigger than the one it replaces. In an LRU a value bigger than the capacity
+// never stays (LRUCache.Set evicts from the cold end until the total fits, and
+// the new entry is the last to go), and it takes every other entry of its
+// worker with it; a value that fits stays and evicts others only if the total
+// may exceed the capacity.
+func (m *model) wasSet(key, st int, grew bool) {
+	m.deleted[key] = false
+	m.oversize[key] = false
+	if m.cfg.LRU && m.sizeIfCached(key) > m.cfg.Cap {
+		m.st[key] = sNo
+		m.oversize[key] = true
+		m.wt[key] = false
+		m.othersMayBeGone(key)
 		return
 	}
-	n := 0
-	for _, s := range m.st {
-		if s != sNo {
-			n++
-		}
-	}
-	if int64(n) > m.cfg.Cap {
-		for i := range m.st {
-			if i != key && m.st[i] >= sYesWT {
-				m.st[i] = sMaybe
-			}
-		}
+	m.st[key] = st
+	if grew && m.evictionPossible() {
+		m.othersMayBeGone(key)
 	}
 }
 
@@ -1055,6 +1157,7 @@ func (m *model) set(key, st int) {
 	m.st[key] = st
 	if st != sNo {
 		m.deleted[key] = false
+		m.oversize[key] = false
 	}
 }
 
@@ -1080,12 +1183,20 @@ func (m *model) after(r *opRec, obs int) {
 			}
 		}
 	}
+	// the size of the entry the operation found in the cache, if it found one
+	oldSize := int64(1)
+	if m.cfg.Sized && len(r.log) > 0 && r.log[0].hasPre {
+		if pv, ok := asVal(r.log[0].pre); ok {
+			oldSize = pv.Sz
+		}
+	}
 	switch {
 	case r.op.K == opDelete && len(r.log) == 0:
 		// never ran
 	case r.op.K == opDelete && r.effOK:
 		m.set(key, sNo)
 		m.deleted[key] = true
+		m.oversize[key] = false
 		m.wt[key] = false
 	case r.op.K == opDelete:
 		if m.st[key] >= sYesWT {
@@ -1095,19 +1206,20 @@ func (m *model) after(r *opRec, obs int) {
 		m.set(key, sYes)
 		m.wt[key] = true
 	case obs == obsCached && r.effOK:
-		m.set(key, sYesWT) // renewed in place: nothing is evicted
+		// renewed in place: only an entry that grows can push anything out
 		m.wt[key] = true
+		m.wasSet(key, sYesWT, m.sizeIfCached(key) > oldSize)
 	case obs == obsCached:
 		m.set(key, sMaybe) // keeping or dropping the old entry are both coherent
 		m.wt[key] = true
 	case obs == obsUncached && r.effOK && r.op.K != opUpsertRenew:
-		m.inserted(key, sYesWT)
 		m.wt[key] = true
-	case obs == obsUncached && (r.effOK || anyOK(r.log)):
+		m.wasSet(key, sYesWT, true)
+	case obs == obsUncached && (r.effOK || anyOK(r.log)) && m.track[r.kid] != nil:
 		// upsert-then-renew is documented not to fill the cache; an abandoned or failed operation
 		// obtained a current value before it stopped: caching it would be coherent in both cases
-		m.inserted(key, sMaybe)
 		m.wt[key] = false
+		m.wasSet(key, sMaybe, true)
 	case obs == obsUncached:
 		m.set(key, sNo)
 		m.wt[key] = false
@@ -1128,6 +1240,14 @@ func labelConfig(res *vkit.Result, c Config, h *harness) {
 		res.Class("facade-map")
 	}
 	res.Class(fmt.Sprintf("workers-%d", c.Workers))
+	if c.Sized {
+		res.Class("values-with-size")
+		if c.LRU {
+			res.Class("lru-with-sized-values")
+		}
+	} else {
+		res.Class("plain-values")
+	}
 	seen := map[int]bool{}
 	for _, hv := range h.hashes {
 		if seen[hv] {
@@ -1230,7 +1350,7 @@ func (j *judge) one(r *opRec) bool {
 	}
 	key := r.op.Key
 	if r.op.K == opGet && obs == obsCached {
-		v := r.v.(Val)
+		v, _ := asVal(r.v)
 		if r.early {
 			// a read served from the cache while an earlier accepted operation was still in
 			// flight: "after the last completed operation" is the reference
@@ -1253,6 +1373,9 @@ func (j *judge) one(r *opRec) bool {
 	switch {
 	case obs == obsCached && m.st[key] == sNo && m.deleted[key]:
 		res.Failf("delete-leaves-cache-entry", "the key was deleted successfully and not written since, yet the next operation found it in the cache :: %s", r)
+		return false
+	case obs == obsCached && m.st[key] == sNo && m.oversize[key]:
+		res.Failf("oversize-value-cached", "the last value written for the key is bigger than the LRU capacity (%d), so it cannot be in the cache, yet the operation found the key there :: %s", h.cfg.Cap, r)
 		return false
 	case obs == obsCached && m.st[key] == sNo:
 		res.Failf("phantom-cache-entry", "no operation accepted before this one can have put the key into the cache, yet the operation found it there :: %s", r)
@@ -1281,6 +1404,23 @@ func (j *judge) one(r *opRec) bool {
 		}
 		labelOp(res, r, obs)
 		labelKey(res, h, key)
+		if h.cfg.Sized && h.cfg.LRU && r.effOK && len(r.log) > 0 && r.op.K != opDelete {
+			newSz := r.log[len(r.log)-1].out.Sz
+			oldSz := int64(-1)
+			if pv, ok := asVal(r.log[0].pre); ok && obs == obsCached {
+				oldSz = pv.Sz
+			}
+			switch {
+			case obs == obsCached && newSz > h.cfg.Cap:
+				res.Class("cached-key-written-with-a-value-bigger-than-the-capacity")
+			case obs == obsUncached && newSz > h.cfg.Cap:
+				res.Class("uncached-key-set-with-a-value-bigger-than-the-capacity")
+			case obs == obsCached && newSz > oldSz:
+				res.Class("cached-entry-grows-within-the-capacity")
+			case obs == obsCached && newSz < oldSz:
+				res.Class("cached-entry-shrinks")
+			}
+		}
 	}
 	m.after(r, obs)
 	return true
@@ -1505,7 +1645,19 @@ func ExecGate(c CaseGate) *vkit.Result {
 	}
 	// ... and judged in that order. Operations on different keys may really have been applied
 	// in another order, which matters only where an LRU can evict.
-	j.m.voidAfterEach = c.LRU && c.Cap < int64(len(h.keys))
+	maxSz := int64(1)
+	if c.Sized {
+		for _, sz := range c.InitSz {
+			maxSz = max(maxSz, sz)
+		}
+		for _, x := range runs {
+			maxSz = max(maxSz, x.r.op.Sz)
+		}
+		for _, op := range c.Pre {
+			maxSz = max(maxSz, op.Sz)
+		}
+	}
+	j.m.voidAfterEach = c.LRU && c.Cap < int64(len(h.keys))*maxSz
 	if j.m.voidAfterEach {
 		for i := range j.m.st {
 			if i != c.Gate.Key && j.m.st[i] >= sYesWT {
@@ -1683,7 +1835,7 @@ func ExecConc(c CaseConc) *vkit.Result {
 				return res.Failf(site, "%s", msg)
 			}
 			if r.op.K == opGet && obs == obsCached {
-				v := r.v.(Val)
+				v, _ := asVal(r.v)
 				if v.K != r.kid || !e.valueInWindow(r.kid, &v, r.t0, r.t1) {
 					return res.Failf("coherence", "DoGet answered from the cache with %+v, which the store did not hold for the key at any instant between the call (t=%d) and the return (t=%d), nor was it replaced by an operation still in progress at the call; store history of the key:%s :: %s", v, r.t0, r.t1, e.history(r.kid), r)
 				}
@@ -1746,7 +1898,7 @@ func ExecConc(c CaseConc) *vkit.Result {
 			e.mu.Lock()
 			cv, exists := e.vals[r.kid]
 			e.mu.Unlock()
-			if v := r.v.(Val); !exists || v != cv {
+			if v, _ := asVal(r.v); !exists || v != cv {
 				held := "nothing"
 				if exists {
 					held = fmt.Sprintf("%+v", cv)
@@ -1792,7 +1944,7 @@ func ExecConc(c CaseConc) *vkit.Result {
 
 var PartSeq = &vkit.Part[Case]{
 	Property: Property, Name: "sequential",
-	Rule:  "rapid: {map | LRU cap 1,2,100} x workers {1,2,3,7} x 1-6 keys of 16 Hashed2Int types (pool with MinInt64-, negative-, zero-, equal-hashed keys + random values), each key initially in the store or not; 1-30 operations of the 7 kinds (DoGet is the coherence probe: it is a generated operation, not run after every step) + one closing DoGet per key; fault plan: 0-8 of 'the n-th invocation of load/add/update/upsert/delete fails without effect, as plain error or as not-found'; in half of the histories each operation's own context may end before the call or inside its 1st/2nd store callback (which still takes effect), and the history then waits for idle workers (vkit.Sched quiescence). Oracle per operation: callbacks follow the documented order (an operation may be abandoned only after its caller's context ended), only inside the operation, never overlapping per key; every existing item handed to update/upsert and every value DoGet serves without load equals the store's current value; result = the operation's own last callback result (or the caller's context error once its context ended); cache knowledge per key (certainly cached by observation / by the write-through policy, maybe, certainly not; no assumption on which keys share a worker): a certainly-uncached key served from cache (incl. after a successful delete) or a certainly-cached key bypassed (incl. DoAdd reaching the store) is a violation. Non-trivial: >= 1 injected failure was hit and >= 1 key was touched by two operations; distinct = distinct case JSON",
+	Rule:  "rapid: {map | LRU cap 1,2,4,100} x workers {1,2,3,7} x 1-6 keys of 16 Hashed2Int types (pool with MinInt64-, negative-, zero-, equal-hashed keys + random values), each key initially in the store or not; values are plain (count 1) or, in half of the LRU and a quarter of the map configurations, implement cache.Value with a Size() drawn per write from {1,1,1,2,cap-1,cap,cap+1,3*cap}, so that cached entries grow and shrink across the capacity; 1-30 operations of the 7 kinds (DoGet is the coherence probe: it is a generated operation, not run after every step) + one closing DoGet per key; fault plan: 0-8 of 'the n-th invocation of load/add/update/upsert/delete fails without effect, as plain error or as not-found'; in half of the histories each operation's own context may end before the call or inside its 1st/2nd store callback (which still takes effect), and the history then waits for idle workers (vkit.Sched quiescence). Oracle per operation: callbacks follow the documented order (an operation may be abandoned only after its caller's context ended), only inside the operation, never overlapping per key; every existing item handed to update/upsert and every value DoGet serves without load equals the store's current value; result = the operation's own last callback result (or the caller's context error once its context ended); cache knowledge per key (certainly cached by observation / by the write-through policy, maybe, certainly not; no assumption on which keys share a worker; a value bigger than the LRU capacity is certainly not cached after it was set and may have evicted every other key, a set that fits evicts others only if the sizes of everything possibly cached may exceed the capacity): a certainly-uncached key served from cache (incl. after a successful delete) or a certainly-cached key bypassed (incl. DoAdd reaching the store) is a violation. Non-trivial: >= 1 injected failure was hit and >= 1 key was touched by two operations; distinct = distinct case JSON",
 	Quick: 20000, Thorough: 100000,
 	Gen: GenSeq, Exec: ExecSeq,
 }
